@@ -1,13 +1,13 @@
 (* Per-pixel model of clipping, masking and group opacity (crates/resvg/src/clip.rs, mask.rs, render.rs).
    One channel (alpha / coverage) over exact rationals in [0,1]; the exact u8 scaling of
-   tiny-skia's apply_mask is Model/Pixel.v scale_u8; the exact binary32 luminance coefficient of
+   tiny-skia's apply_mask is Model/Blend8.v scale_u8; the exact binary32 luminance coefficient of
    tiny_skia::Mask::from_pixmap is lum_mask_u8 below.
-   The blend modes and the buffer initialisation are the SOURCE-DERIVED constants of Gen/PixelTables.v
+   The blend modes and the buffer initialisation are the SOURCE-DERIVED constants of Gen/ClipTables.v
    (clip_buffer_initial_opaque, clip_children_mode, clip_group_children_mode, clip_group_merge_mode). *)
 From RV Require Import Model.Base.
 From RV Require Import Model.F32.
-From RV Require Import Gen.PixelTables.
-From RV Require Import Model.Pixel.
+From RV Require Import Gen.ClipTables.
+From RV Require Import Model.Blend8.
 From Flocq Require Import Core BinarySingleNaN.
 Local Open Scope Q_scope.
 
